@@ -215,3 +215,17 @@ Theorem nlr_exact : forall g T w t,
    valid_tree g t /\ root g t = g_start g /\ yield t = w).
 Proof. exact nlr_exact_main. Qed.
 Print Assumptions nlr_exact.
+
+(* what the boolean rn_complete_b (evaluated on every real LALR_RN table) states: the table is
+   RIGHT-NULLED - an item whose remaining symbols all derive the empty string reduces, with the
+   length of what is before the dot, on each of its lookaheads.  glr/parser.rs relies on it (it
+   does not re-apply reductions of length 0 over a new edge). *)
+From RV Require Import Proofs.SafeRN.
+Theorem rn_reductions_present : forall g T s st it a,
+  rn_complete_b g T = true -> get_state T s = Some st -> In it (s_items st) ->
+  is_aug_prod g (i_prod it) = false ->
+  (forall X, In X (skipn (i_pos it) (rhs g (i_prod it))) -> In X (eps_ok_syms g)) ->
+  In a (i_follow it) ->
+  In (Reduce (i_prod it) (i_pos it)) (cell T s a).
+Proof. exact rn_complete_meaning. Qed.
+Print Assumptions rn_reductions_present.
